@@ -49,6 +49,9 @@ _text = st.one_of(
     # free text that looks like something the codec treats specially: a leading or inner '@', digits only, hex only, a dictionary word
     st.builds(lambda a, b: a + b, st.sampled_from(["@", "@@", "a@b", "@s.whatsapp.net", "0@", "12345678", "DEADBEEF", "-", ".", "image", "s.whatsapp.net"]),
               st.text(alphabet="abc019.-@ ", min_size=0, max_size=6)).map(lambda s: s + "x" if s.endswith("@") else s),
+    # long free text (a group subject, a status): beyond the 8-bit length class of the wire format, with byte-range characters
+    st.builds(lambda unit, n: (unit * n)[:max(256, n)], st.text(alphabet=st.characters(min_codepoint=0xa0, max_codepoint=0xff), min_size=1, max_size=3),
+              st.sampled_from([256, 257, 300, 700])),
 )
 
 ID = Kind("ID", _id)
